@@ -68,6 +68,9 @@ func (f *filler) fill(v reflect.Value, path string) {
 		m := reflect.MakeMap(t)
 		m.SetMapIndex(reflect.ValueOf("x-"+f.word()), reflect.ValueOf(map[string]any{"payload": []any{"opaque", 1}}))
 		m.SetMapIndex(reflect.ValueOf("x-scalar"), reflect.ValueOf(f.word()))
+		// a key without a payload (`x-flag:` in YAML) is a value like any other
+		m.SetMapIndex(reflect.ValueOf("x-null"), reflect.Zero(t.Elem()))
+		m.SetMapIndex(reflect.ValueOf("x-nested"), reflect.ValueOf(map[string]any{"inner": nil, "list": []any{nil, "x"}}))
 		v.Set(m)
 		return
 	}
